@@ -236,3 +236,18 @@ fn k_aq_7_abandoned_frame_is_clean() {
 pub(crate) fn is_untracked(q: &ActiveQuery) -> bool {
     q.untracked_read
 }
+
+/// Backing store for a query stack **on the harness's stack**: the `Vec<ActiveQuery>` of a `QueryStack` normally
+/// lives on the heap, which CBMC treats as untyped bytes - every length / pointer read back from a frame then stays
+/// symbolic (DESIGN 14.1).  Capacity 4 frames; a fifth push would reallocate a non-heap pointer and fail the harness.
+pub(crate) type StackCell = [std::mem::MaybeUninit<ActiveQuery>; 4];
+pub(crate) fn stack_cell() -> StackCell {
+    [const { std::mem::MaybeUninit::uninit() }; 4]
+}
+pub(crate) fn query_stack_on(cell: &mut StackCell) -> QueryStack {
+    QueryStack {
+        // SAFETY: properly aligned storage for 4 frames, length 0; never freed (the local state is forgotten)
+        stack: unsafe { Vec::from_raw_parts(cell.as_mut_ptr() as *mut ActiveQuery, 0, 4) },
+        len: 0,
+    }
+}
